@@ -308,7 +308,7 @@ def check_c08(tier):
     mask_kinds = ("del_node", "add_node", "paint", "add_edge")
     stages = [
         dict(name="core-bfs", worlds=["seg-2d-core"], seeds=HAND_SEEDS, depth=2, kinds=mask_kinds if q else SEG_KINDS),
-        dict(name="scales-2d", worlds=["seg-2d-aniso", "seg-2d-iso", "seg-2d-all", "seg-2d-aniso-ell", "seg-2d-fd-loc", "seg-2d-geff"], seeds=HAND_SEEDS,
+        dict(name="scales-2d", worlds=["seg-2d-aniso", "seg-2d-iso", "seg-2d-all", "seg-2d-aniso-ell", "seg-2d-fd-loc", "seg-2d-geff", "seg-2d-geff-loaded", "seg-2d-geff-recompute"], seeds=HAND_SEEDS,
              depth=1 if q else 2, kinds=SEG_KINDS),
         dict(name="3d", worlds=["seg-3d-aniso"] if q else ["seg-3d", "seg-3d-aniso", "seg-3d-all"], seeds=HAND_SEEDS,
              depth=1 if q else 2, kinds=mask_kinds if q else SEG_KINDS),
@@ -333,7 +333,7 @@ def check_c09(tier):
     q = tier == "quick"
     stages = [
         dict(name="seg2d-bfs", worlds=["seg-2d"], seeds=HAND_SEEDS, depth=2, kinds=SEG_KINDS if not q else ("del_node", "add_node", "paint", "add_edge", "del_edge")),
-        dict(name="aniso-given", worlds=["seg-2d-aniso", "seg-2d-fd", "seg-2d-geff"], seeds=HAND_SEEDS + ["fix6"], depth=1 if q else 2, kinds=SEG_KINDS),
+        dict(name="aniso-given", worlds=["seg-2d-aniso", "seg-2d-fd", "seg-2d-geff", "seg-2d-geff-loaded"], seeds=HAND_SEEDS + ["fix6"], depth=1 if q else 2, kinds=SEG_KINDS),
         dict(name="3d", worlds=["seg-3d"], seeds=HAND_SEEDS, depth=1 if q else 2, kinds=SEG_KINDS),
         dict(name="uint8-labels", worlds=["seg-2d-u8"], seeds=["u8ids", "div"], depth=1 if q else 2, kinds=SEG_KINDS),
         dict(name="wide-ids", worlds=["seg-2d", "seg-2d-bigids"], seeds=["u32ids", "bigdiv"], depth=1 if q else 2, kinds=SEG_KINDS,
